@@ -1,18 +1,18 @@
 CONSTANTS
   RR = {"R1"}
-  Res = {}
-  FSlots = {"s1"}
-  Dyn <- Dyn12
-  Keys = {"k1"}
-  Prog <- ProgC1
-  Body <- BodyC1
+  Res = {"r1","r2"}
+  FSlots = {}
+  Dyn <- Dyn8
+  Keys = {}
+  Prog <- ProgA
+  Body <- NoBody
   AlwaysSpawn <- Inline1
-  MaxBump = 1
-  MaxFail = 1
+  MaxBump = 2
+  MaxFail = 0
   MaxTasks = 14
   StopAllowed = {"R1"}
-  MaxStops = 1
-  ParentCancelAllowed = {}
+  MaxStops = 2
+  ParentCancelAllowed = {"R1"}
   StopWaits = TRUE
 SPECIFICATION Spec
 INVARIANTS TaskBound NoOverlap StopFinal FreshAtQuiescence CleanupAtMostOnce NoCleanupWhileLive CleanupExactlyOnceAtQuiescence TrackerExact
